@@ -913,13 +913,20 @@ class RequestHandler(BaseProtocol, Generic[_Request]):
                 status=exc.status, reason=exc.reason, text=exc.text, headers=exc.headers
             )
             prepare_meth = resp.prepare
-        if (
-            isinstance(resp, StreamResponse)
-            and resp.prepared
-            and resp._req is not request
+        if isinstance(resp, StreamResponse) and (
+            (
+                resp._eof_sent
+                and getattr(request._payload_writer, "_headers_written", None)
+                is False
+            )
+            or (
+                resp._payload_writer is not None
+                and resp._payload_writer is not request._payload_writer
+            )
         ):
-            # Sent already, in answer to another request: preparing it again
-            # writes nothing and this request would stay unanswered.
+            # Sent already (or under way) in answer to another request, while
+            # nothing has gone out for this one: preparing it again writes
+            # nothing and this request would stay unanswered.
             self.log_exception(
                 f"Web-handler returned {resp!r}, which was sent before; "
                 "a response object serves one request"
